@@ -74,14 +74,29 @@ def run(ctx):
                 if e["func"] != "_get_db":
                     continue
                 for alt in e["alts"]:
-                    seq = [x["k"] for x in alt["events"] if x["k"] in ("script", "commit")]
-                    scripts = [x for x in alt["events"] if x["k"] == "script"]
+                    flat = [x for x, _ in flat_events(alt["events"])]
+                    dyn = [x for x in flat if x["k"] == "sql_dynamic" and _is_upgrade_script(x)]
+                    if dyn:
+                        begun = any(x["k"] == "sql" and x["stmt"].kind == "begin"
+                                    for x in flat[:flat.index(dyn[0])])
+                        ctx.ob("R20.retry", "%s: upgrade statements run inside one explicit "
+                               "transaction" % en[3:], begun, dyn[0],
+                               "" if begun else "the statements of the upgrade script are "
+                               "executed one by one through execute(); Python's sqlite3 opens "
+                               "an implicit transaction only before INSERT/UPDATE/DELETE, so "
+                               "each CREATE TABLE/INDEX is committed on its own and an "
+                               "interrupted upgrade cannot be retried")
+                    seq = ["script" if x["k"] in ("script", "sql_dynamic") else "commit"
+                           for x in flat if x["k"] in ("script", "commit") or
+                           (x["k"] == "sql_dynamic" and _is_upgrade_script(x))]
+                    seq = [k for i, k in enumerate(seq) if i == 0 or k != seq[i - 1]]
+                    scripts = [x for x in flat if x["k"] == "script"] or dyn
                     if not scripts:
                         continue
                     ok = seq[:2] == ["script", "commit"]
                     ctx.ob("R20.loop", "%s: script then commit in each upgrade step" % en[3:],
                            ok, scripts[0], "" if ok else "an upgrade step does %s" % seq)
-                    s = scripts[0]["script"]
+                    s = scripts[0]["script"] if scripts[0]["k"] == "script" else scripts[0]["sql"]
                     step1 = mentions(s, lambda x: x[0] == "binop" and x[1] == "+" and
                                      x[3] == ("const", 1))
                     ctx.ob("R20.loop", "%s: upgrades one version at a time" % en[3:], step1,
@@ -118,7 +133,8 @@ def run(ctx):
 
 
 def _is_upgrade_script(e):
-    return mentions(e["script"], lambda x: is_const(x) and isinstance(x[1], str) and
+    term = e["script"] if e["k"] == "script" else e["sql"]
+    return mentions(term, lambda x: is_const(x) and isinstance(x[1], str) and
                     "upgrade-" in x[1])
 
 
